@@ -180,6 +180,8 @@ class State:
 
     def new_dict(self) -> V:
         v = self.alloc('dict')
+        if not self.sym_alloc:
+            self.ghost['c:dictkeys:%d' % z3.simplify(v.e).as_long()] = ()      # literal keys stored so far (for f(**d))
         self.arr['DK'] = z3.Store(self.get_arr('DK'), v.e, z3.K(Val, z3.BoolVal(False)))
         self.arr['DN'] = z3.Store(self.get_arr('DN'), v.e, z3.IntVal(0))
         return v
